@@ -204,6 +204,12 @@ def element_global(ctx):
             ok, det = False, "raised %s: %s" % (type(ex).__name__, ex)
         ctx.fact("coherence/element-global/%s" % name, fn, ok, det, clause="one element object used on two meshes == a fresh element per mesh",
                  backend="path-execution", replay=dict(kind="element_global", name=name))
+    from native import replay_misc as RM
+    for name in ("ElementTriMorley", "ElementTriArgyris"):
+        ok, det = RM.element_global_dropped_mesh(name, rounds=20)
+        ctx.fact("coherence/element-global/%s/dropped-mesh" % name, fn, ok, "" if ok else det,
+                 clause="one element object used on a mesh that is then garbage collected, then on a new mesh (possibly at the same address) == a fresh element",
+                 backend="path-execution", replay=dict(kind="element_global", name=name, case="dropped-mesh"))
     for name, mk, mm in (("ElementLineHermite", fem.ElementLineHermite, (fem.MeshLine(np.linspace(0, 1, 3)), fem.MeshLine(np.linspace(0, 1, 6)))),
                          ("ElementQuadBFS", fem.ElementQuadBFS, (fem.MeshQuad().refined(1), fem.MeshQuad().refined(2)))):
         e = mk()
